@@ -143,7 +143,8 @@ func c06PoolCheck(o *hx.Out, ctx func() string) {
 }
 
 func c06RouteBusy(o *hx.Out, rng *hx.Rng, lg *c06Log) {
-	p := newEnv(lg.shard, false)
+	disk := lg.pivot >= 0 && rng.Chance(50)
+	p := newEnv(lg.shard, disk)
 	defer p.close()
 	q := newEnv(lg.shard, false)
 	defer q.close()
@@ -189,6 +190,17 @@ func c06RouteBusy(o *hx.Out, rng *hx.Rng, lg *c06Log) {
 		}
 	}
 	for i, en := range lg.entries {
+		if disk && i == lg.pivot {
+			// the busy replica re-creates its instance right after the highest timestamp so far (Q keeps its instance)
+			busy.on = false
+			hx.Must(p.db.Close())
+			p.open()
+			c06RestoreSwitch(p.db)
+			busy.target = p.db
+			busy.on = true
+			busy.trace = append(busy.trace, fmt.Sprintf("#%d[Close+NewDB before]", i))
+			o.Count("busy:reopen-at-pivot")
+		}
 		step(i, en.op, en.w)
 	}
 	if !bad && dumpText(q.dump()) != lg.final {
